@@ -1,6 +1,7 @@
 import Bxh.Proofs.ExecLemmas
 import Bxh.Proofs.GoRemove
 import Bxh.Proofs.RouterLemmas
+import Bxh.Proofs.TimeoutList
 /-!
 # C06 — timeout rollback fires exactly at the timeout height and never otherwise
 Theorems about the executor's timeout bookkeeping (`setTimeoutList`, `getTimeoutList`,
@@ -331,5 +332,154 @@ ids appended after it are never timed out (quirk of `strings.Split("", ",")`, ke
 theorem C06_emptied_list_quirk (l : Led) (h : Nat) (rest : List (Option TId))
     (hs : l.getS (.timeout h) = some (.tlist (none :: rest))) : getTimeoutList l h = [] := by
   simp [getTimeoutList, hs]
+
+end Bxh.Props.C06
+
+namespace Bxh.Props.C06
+open Bxh Bxh.Exec
+
+/-! ### the bookkeeping of a whole block (`Proofs/TimeoutList.lean`: `setTimeoutList_at`) -/
+
+/-- a stored timeout list is the emptied list (`""`, read as `[none]`) or holds ids only -/
+def ListWF (v : Option Val) : Prop := ∀ lst, v = some (.tlist lst) → lst = [none] ∨ ∀ x ∈ lst, x ≠ none
+
+theorem getTimeoutList_eq (l : Led) (h : Nat) :
+    getTimeoutList l h = (if (curList (l.getS (.timeout h))).head? == some none then [] else (curList (l.getS (.timeout h))).filterMap id) := by
+  unfold getTimeoutList curList
+  split <;> simp_all
+
+theorem filterMap_id_map_some (A : List TxId) : (A.map (fun t => some (TId.single t))).filterMap id = A.map TId.single := by
+  induction A with
+  | nil => rfl
+  | cons a r ih => simp [ih]
+
+/-- **every request a block books for height `d` is on the list of `d` afterwards, once, behind what was there** — whatever else
+the block holds, as long as it takes nothing off that list (requests of any number of pairs sharing the deadline included) -/
+theorem C06_block_books_requests (cfg : Cfg) (l : Led) (h : Nat) (txs : List Tx) (rcpts : List Rcpt) (d : Nat)
+    (hna : ((txs.zip rcpts).map (fun p => timeoutAct cfg l h p.1 p.2)).contains .abort = false)
+    (hR : remsAt d ((txs.zip rcpts).map (fun p => timeoutAct cfg l h p.1 p.2)) = [])
+    (hwf : ListWF (l.getS (.timeout d))) :
+    getTimeoutList (setTimeoutList cfg l h txs rcpts) d =
+      getTimeoutList l d ++ (addsAt d ((txs.zip rcpts).map (fun p => timeoutAct cfg l h p.1 p.2))).map TId.single := by
+  rw [getTimeoutList_eq, getTimeoutList_eq, setTimeoutList_at cfg l h txs rcpts d hna]
+  generalize addsAt d _ = A at *
+  unfold listAfter
+  simp only [hR, if_true]
+  by_cases hA : A = []
+  · simp [hA]
+  · simp only [hA, if_false]
+    obtain ⟨a, A', rfl⟩ := List.exists_cons_of_ne_nil hA
+    cases hv : l.getS (.timeout d) with
+    | none => simp [curList]
+    | some v =>
+      cases v with
+      | tlist lst =>
+        rcases hwf lst hv with h1 | h1
+        · subst h1; simp [curList]
+        · have hne : (lst == [none]) = false := by
+            cases lst with
+            | nil => rfl
+            | cons x r =>
+              have := h1 x (List.mem_cons_self ..)
+              cases r with
+              | nil => cases x <;> simp_all
+              | cons y r' => simp
+          have hhead : lst.head? ≠ some none := by
+            cases lst with
+            | nil => simp
+            | cons x r => have := h1 x (List.mem_cons_self ..); simpa using this
+          have hhead2 : (lst ++ List.map (fun t => some (TId.single t)) (a :: A')).head? ≠ some none := by
+            cases lst with
+            | nil => simp
+            | cons x r =>
+              have := h1 x (List.mem_cons_self ..)
+              simp only [List.cons_append, List.head?_cons, ne_eq, Option.some.injEq]
+              exact this
+          have e1 : (lst.head? == some none) = false := by rw [beq_eq_false_iff_ne]; exact hhead
+          have e2 : ((lst ++ List.map (fun t => some (TId.single t)) (a :: A')).head? == some none) = false := by
+            rw [beq_eq_false_iff_ne]; exact hhead2
+          simp only [curList, hne, Bool.false_eq_true, if_false, e1, e2, List.filterMap_append, filterMap_id_map_some]
+      | _ => simp [curList]
+
+/-- **a transaction the block takes off the list of `d` is gone from it afterwards** (a receipt, or between two hubs the notice):
+the block removes that id once and adds nothing for `d`, and the list held the id at most once -/
+theorem C06_block_unbooks (cfg : Cfg) (l : Led) (h : Nat) (txs : List Tx) (rcpts : List Rcpt) (d : Nat) (t : TxId)
+    (lst : List (Option TId))
+    (hna : ((txs.zip rcpts).map (fun p => timeoutAct cfg l h p.1 p.2)).contains .abort = false)
+    (hA : addsAt d ((txs.zip rcpts).map (fun p => timeoutAct cfg l h p.1 p.2)) = [])
+    (hR : remsAt d ((txs.zip rcpts).map (fun p => timeoutAct cfg l h p.1 p.2)) = [t])
+    (hl : l.getS (.timeout d) = some (.tlist lst)) (hc : lst.count (some (.single t)) ≤ 1) :
+    (setTimeoutList cfg l h txs rcpts).getS (.timeout d) = some (.tlist (normList (lst.erase (some (.single t))))) ∧
+    TId.single t ∉ getTimeoutList (setTimeoutList cfg l h txs rcpts) d := by
+  have hst : (setTimeoutList cfg l h txs rcpts).getS (.timeout d) = some (.tlist (normList (lst.erase (some (.single t))))) := by
+    rw [setTimeoutList_at cfg l h txs rcpts d hna, hA, hR]
+    unfold listAfter
+    simp [hl, curList, goRemove_count_le_one lst (.single t) hc]
+  refine ⟨hst, ?_⟩
+  rw [getTimeoutList_eq, hst]
+  simp only [curList]
+  by_cases hh : ((normList (lst.erase (some (TId.single t)))).head? == some none) = true
+  · simp [hh]
+  · simp only [hh, if_false]
+    intro hm
+    have hm' : some (TId.single t) ∈ normList (lst.erase (some (.single t))) := by
+      simpa using hm
+    have hm2 : some (TId.single t) ∈ lst.erase (some (.single t)) := by
+      unfold normList at hm'
+      split at hm'
+      · simp at hm'
+      · exact hm'
+    have h1 := List.count_erase_self (a := some (TId.single t)) (l := lst)
+    have h2 := List.count_pos_iff.mpr hm2
+    omega
+
+/-- **a request and its receipt in one block net out**: booked under `d` and taken off `d` by the same block, on a list that was
+absent or emptied, the id is not listed afterwards (the stored list is the emptied one) -/
+theorem C06_block_request_and_receipt_net_out (cfg : Cfg) (l : Led) (h : Nat) (txs : List Tx) (rcpts : List Rcpt) (d : Nat) (t : TxId)
+    (hna : ((txs.zip rcpts).map (fun p => timeoutAct cfg l h p.1 p.2)).contains .abort = false)
+    (hA : addsAt d ((txs.zip rcpts).map (fun p => timeoutAct cfg l h p.1 p.2)) = [t])
+    (hR : remsAt d ((txs.zip rcpts).map (fun p => timeoutAct cfg l h p.1 p.2)) = [t])
+    (hl : curList (l.getS (.timeout d)) = [none]) :
+    getTimeoutList (setTimeoutList cfg l h txs rcpts) d = [] := by
+  rw [getTimeoutList_eq, setTimeoutList_at cfg l h txs rcpts d hna, hA, hR]
+  unfold listAfter
+  have hg : goRemove [some (TId.single t)] (TId.single t) = some [] := by
+    rw [goRemove_count_le_one _ _ (by simp)]; simp
+  unfold curList at hl
+  simp [hl, curList, hg, normList]
+
+/-- a height the block has no action for keeps its list -/
+theorem C06_block_other_heights_untouched (cfg : Cfg) (l : Led) (h : Nat) (txs : List Tx) (rcpts : List Rcpt) (d : Nat)
+    (hA : addsAt d ((txs.zip rcpts).map (fun p => timeoutAct cfg l h p.1 p.2)) = [])
+    (hR : remsAt d ((txs.zip rcpts).map (fun p => timeoutAct cfg l h p.1 p.2)) = []) :
+    (setTimeoutList cfg l h txs rcpts).getS (.timeout d) = l.getS (.timeout d) := by
+  by_cases hna : ((txs.zip rcpts).map (fun p => timeoutAct cfg l h p.1 p.2)).contains .abort = false
+  · rw [setTimeoutList_at cfg l h txs rcpts d hna, hA, hR]; simp [listAfter]
+  · unfold setTimeoutList
+    have : ((txs.zip rcpts).map (fun p => timeoutAct cfg l h p.1 p.2)).contains .abort = true := by simpa using hna
+    rw [if_pos this]
+
+end Bxh.Props.C06
+
+namespace Bxh.Props.C06
+open Bxh Bxh.Exec
+
+-- non-vacuity of the block theorems: block 7 books two requests of different pairs under the shared deadline 9 (behind the id
+-- already there), block 8 takes one of them off again by its receipt, nothing else on that list moves
+example :
+    let s11 : SvcId := ⟨"1356", "c1", "s1"⟩
+    let s21 : SvcId := ⟨"1356", "c2", "s1"⟩
+    let s41 : SvcId := ⟨"1356", "c4", "s1"⟩
+    let t0 : TxId := ⟨s41, s11, 5⟩
+    let t1 : TxId := ⟨s11, s21, 1⟩
+    let t2 : TxId := ⟨s21, s41, 3⟩
+    let ok : Rcpt := { ok := true, ret := "" }
+    let l : Led := { store := [(.timeout 9, .tlist [some (.single t0)])] }
+    let b7 : List Tx := [.ibtp "ca1" (plainReq s11 s21 1 2) .ok, .xfer "u0" "u1" (some 1), .ibtp "ca2" (plainReq s21 s41 3 2) .ok]
+    let l7 := setTimeoutList {} l 7 b7 [ok, ok, ok]
+    let l7r : Led := { l7 with store := l7.store ++ [(.txRec t1, .trec { height := 9, status := .success })] }
+    let b8 : List Tx := [.ibtp "ca2" { plainReq s11 s21 1 0 with typ := .receiptSuccess } .ok]
+    getTimeoutList l7 9 = [.single t0, .single t1, .single t2] ∧
+    getTimeoutList (setTimeoutList {} l7r 8 b8 [ok]) 9 = [.single t0, .single t2] := by decide
 
 end Bxh.Props.C06
